@@ -115,6 +115,11 @@ func (m *Monitors) afterRecv(w *World, in M, p *Pkt, before, after *Snap) {
 		if len(sd) > 0 {
 			m.emit(w, "C30", "a failed receive changed balances on the receiving chain", in, fmt.Sprint(sd))
 		}
+		// C33: a returning voucher may only be refused for a receive-side reason the harness created
+		// itself (receiving disabled, receiver blocked / undecodable)
+		if p.Burned && w.recvEnabled[p.Dst] && w.plainReceiver(p.Dst, p.Recvr) {
+			m.emit(w, "C33", "the origin chain refused a returning voucher", in, M{"packetDenom": p.Denom, "amount": p.Amount.String()})
+		}
 		m.global(w, in)
 		return
 	}
